@@ -13,8 +13,9 @@ RULE = ("sequences of 1-5 simulated instructions on one native account wrapped b
         "through DerefMut / Deref read / manual serialize / reload / owner change / close_account, cleanup `()` or "
         "CloseAccount; initial owner program or foreign; directed size-change sequences (growth of exactly 10240 and 10241 "
         "bytes in one instruction, growth split over two instructions, manual serialize + further growth in the same "
-        "instruction, shrink then grow, shrink to empty). non-trivial = at least one instruction completes on a writable "
-        "program-owned account with a value whose encoding differs from the previous data")
+        "instruction, shrink then grow); every op x writable/read-only x program/foreign owner x cleanup kind on a valid "
+        "account. non-trivial = at least one instruction on a writable program-owned account performs a successful "
+        "mutation (set_inner / DerefMut write) and completes its cleanup")
 TRUSTED = [
     "Coq 8.16.1 kernel", "extraction (ExtrOcamlBasic only) + runner/driver.ml",
     "harness/src/bin/vh_c15.rs (three programs, four account types, instruction simulator) + native AccountInfo builder "
@@ -33,6 +34,43 @@ ASSUMPTIONS = [
     "close_account on a read-only account is the runtime's to reject (C13); the generator only closes writable accounts",
     "validation is the shared model of C08 (Account/Validate.v)",
 ]
+
+
+
+def _honour_verif_repo():
+    """bin/check builds harness/ whose path dependencies name /repo.  When VERIF_REPO points at another tree (a scratch
+    worktree carrying a proposed patch) build a copy of the crate whose dependencies follow it, in its own target dir."""
+    import os
+    import shutil
+    from lib import common as C
+    repo = os.path.normpath(C.REPO)
+    if repo == "/repo":
+        return
+    orig = C.build_harness
+
+    def build(bin_name, release=False, extra_env=None, timeout=2400):
+        if bin_name != BIN:
+            return orig(bin_name, release, extra_env, timeout)
+        alt = os.path.join(C.WORK, "harness_c15_alt")
+        os.makedirs(alt, exist_ok=True)
+        for name in ("src", ".cargo"):
+            dst = os.path.join(alt, name)
+            if os.path.isdir(dst):
+                shutil.rmtree(dst)
+            shutil.copytree(os.path.join(C.HARNESS, name), dst)
+        txt = open(os.path.join(C.HARNESS, "Cargo.toml")).read().replace('path = "/repo/', 'path = "%s/' % repo)
+        open(os.path.join(alt, "Cargo.toml"), "w").write(txt)
+        if not os.path.exists(os.path.join(alt, "Cargo.lock")):
+            shutil.copyfile(os.path.join(repo, "Cargo.lock"), os.path.join(alt, "Cargo.lock"))
+        rc, out = C.sh(["cargo", "build", "--offline", "--bin", bin_name], cwd=alt, timeout=timeout, env=extra_env)
+        if rc != 0:
+            return None, out
+        return os.path.join(alt, "target", "debug", bin_name), out
+
+    C.build_harness = build
+
+
+_honour_verif_repo()
 
 W = {0: 8, 1: 8, 2: 1, 3: 4}
 DISC = {0: [1, 2, 3, 4, 5, 6, 7, 8], 1: [0xB0, 0xB1, 0xB2, 0xB3, 0xB4, 0xB5, 0xB6, 0xB7], 2: [0x5A], 3: [0xDE, 0xC0, 0xDE, 0xC0]}
@@ -656,7 +694,7 @@ def gen_cases(rng, tier):
         {"writable": True, "close_cleanup": False, "ops": [(1, [1, 2, 3]), (3, 4)]},
         {"writable": False, "close_cleanup": False, "ops": [(5, None)]}]})
     _directed(add)
-    n = 1400 if tier == "quick" else 40000
+    n = 1400 if tier == "quick" else 150000
     for _ in range(n):
         ty = rng.below(4)
         foreign = rng.chance(1, 12)
